@@ -10,7 +10,7 @@ from hypothesis import strategies as st
 from .. import gen, norm, states
 from ..common import lib
 from ..core import Violation, require
-from ..spec import kinds, walk_spec
+from ..spec import build, child_specs, kinds, qexpr, walk_spec
 
 ID = "C04"
 BUDGET = {"quick": (4, 400), "thorough": (16, 5000)}
@@ -44,6 +44,58 @@ def strategy(tier):
         return {"spec": spec, "state": rec, "f": draw(st.sampled_from((2.0, 0.5, 3.0)))}
 
     return cases()
+
+
+def qname(q):
+    """The name histogrammar gives a rendered quantity (None for an anonymous lambda)."""
+    fl = q.get("fl", "lambda")
+    if fl in ("named", "named_str"):
+        return q.get("name") or "nm_" + qexpr(q).replace(" ", "")
+    if fl == "named_cached":
+        return q.get("name") or "nc_" + qexpr(q).replace(" ", "")
+    if fl in ("str", "cached_str"):
+        return qexpr(q)
+    if fl == "def":
+        return "q_" + "_".join(q.get("cols", [q.get("col", "q")]))
+    return None
+
+
+def expected_names(spec, path=()):
+    """[(path into the typed document of a FRESH tree, key, expected name)] following the serialisation rule: a
+    fragment written with suppressName (the bins of a binning node, a Fraction's parts) has its name in the parent's
+    '<slot>:name'; everything else carries its own 'name'.  Templates of sparse containers have no instance in a fresh
+    tree: their name is only visible as the parent's 'bins:name'."""
+    out = []
+    k = spec["k"]
+
+    if not path and "q" in spec:
+        out.append(((), "name", qname(spec["q"])))
+    for slot, key, child in child_specs(spec):
+        cq = qname(child["q"]) if "q" in child else None
+        if k == "Bin" and slot == "value":
+            out.append((path, "values:name", cq))
+            out += [t for t in expected_names(child, path + ("values", 0)) if t[0] != path + ("values", 0) or t[1] != "name"]
+        elif k in ("SparselyBin", "Categorize") and slot == "value":
+            out.append((path, "bins:name", cq))
+        elif k in ("CentrallyBin", "IrregularlyBin", "Stack") and slot == "value":
+            out.append((path, "bins:name", cq))
+            cp = path + ("bins", 0, "data")
+            out += [t for t in expected_names(child, cp) if t[0] != cp or t[1] != "name"]
+        elif k == "Fraction" and slot == "value":
+            out.append((path, "sub:name", cq))
+            cp = path + ("numerator",)
+            out += [t for t in expected_names(child, cp) if t[0] != cp or t[1] != "name"]
+        else:
+            if slot in ("underflow", "overflow", "nanflow"):
+                cp = path + (slot,)
+            elif slot == "cut":
+                cp = path + ("data",)
+            else:  # collections
+                cp = path + ("data", key)
+            if "q" in child:
+                out.append((cp, "name", cq))
+            out += [t for t in expected_names(child, cp) if t[0] != cp or t[1] != "name"]
+    return out
 
 
 def jdiff(a, b, path=(), out=None, limit=12):
@@ -120,7 +172,19 @@ def check(case):  # noqa: PLR0915
     boolcat = any(s["k"] == "Categorize" and s["q"]["col"] == "b" for _, s in walk_spec(spec))
     h = states.realize(spec, case["state"])
     doc = h.toJson()
-    text = json.dumps(doc, allow_nan=False)  # raises ValueError on NaN / Infinity literals
+    try:
+        text = json.dumps(doc, allow_nan=False)
+    except ValueError as e:
+        raise Violation("not-json-compliant", f"toJson() holds a value json.dumps(allow_nan=False) refuses: {e}", {"what": "allow_nan"}) from None
+
+    # quantity names: the document of a fresh tree carries exactly the names the quantities were given
+    fresh = norm.norm(build(spec).toJson())
+    for path, key, want in expected_names(spec):
+        holder = fresh
+        for p_ in path:
+            holder = holder[p_]
+        got = holder.get(key)
+        require(got == want, "name-wrong", f"document of a fresh tree: {'/'.join(map(str, path)) or '<root>'}[{key!r}] is {got!r}, the quantity is named {want!r}", {"key": key})
     require(json.loads(text) == json.loads(json.dumps(json.loads(text))), "json-unstable", "document does not survive json")
     wire = json.loads(text)
 
